@@ -53,7 +53,7 @@ pub fn spec_for(prop: &str) -> Option<CheckSpec> {
             prop: "C02",
             level: "exploration",
             parts: vec![Part { scen: &CHUNK, quick: 2_400_000, thorough: 60_000_000 }, Part { scen: &CORPUS, quick: 36, thorough: 3_600 }],
-            rule: "one case = (document, 7 reader switches, reader flavour, source kind, BufReader capacity, cut set, buffer policy, pending pattern); generated from the seed; distinct = distinct Plan hash (every cut set of an exhaustively cut short document counts once); non-trivial = at least one piece boundary lies strictly between a '<' and the next '>' (scanner state must cross a refill) or at least one Poll::Pending fired",
+            rule: "(corpus plans also go through Reader::from_file on a real scratch file, written before or after it is opened) one case = (document, 7 reader switches, reader flavour, source kind, BufReader capacity, cut set, buffer policy, pending pattern); generated from the seed; distinct = distinct Plan hash (every cut set of an exhaustively cut short document counts once); non-trivial = at least one piece boundary lies strictly between a '<' and the next '>' (scanner state must cross a refill) or at least one Poll::Pending fired",
             assumptions: vec![
                 "the slice reader is the reference: agreement is checked, not the correctness of either side",
                 "the first piece holds the complete signature when the input starts with a BOM / UTF-16 signature byte (exception stated by C02): 3 bytes for a UTF-8 BOM, 2 for a UTF-16 BOM, 4 otherwise",
